@@ -15,3 +15,13 @@ pub fn try_recv_local_cmd(driver: &mut SwarmDriver) -> Option<LocalSwarmCmd> {
 pub fn try_recv_network_cmd(driver: &mut SwarmDriver) -> Option<NetworkSwarmCmd> {
     driver.network_cmd_receiver.try_recv().ok()
 }
+
+/// `check_and_wipe_storage_dir_if_necessary` (private; `NetworkBuilder::build_node` calls it at every start
+/// with `get_network_id()` before the record store is opened).
+pub fn check_and_wipe_storage_dir_if_necessary(
+    root_dir: std::path::PathBuf,
+    storage_dir_path: std::path::PathBuf,
+    cur_version_str: String,
+) -> Result<(), crate::NetworkError> {
+    super::check_and_wipe_storage_dir_if_necessary(root_dir, storage_dir_path, cur_version_str)
+}
